@@ -23,6 +23,12 @@ def const(v):
     return lambda it, a, k: v
 
 
+def _unique_id(it, a, k):
+    """distinct, deterministic ids (an order submitted in one step must be found by id in a later step)"""
+    it._uid = getattr(it, "_uid", 0) + 1
+    return f"uuid-{it._uid:04d}"
+
+
 def base_stubs(mode: str = "backtest") -> Dict[str, Callable]:
     """Mode predicates are fixed to the backtest session the properties speak about."""
     live = mode in ("livetrade", "papertrade")
@@ -37,7 +43,7 @@ def base_stubs(mode: str = "backtest") -> Dict[str, Callable]:
         f"{HELPERS}:is_debuggable": const(False),
         f"{HELPERS}:should_execute_silently": const(True),
         f"{HELPERS}:is_importing_candles": const(False),
-        f"{HELPERS}:generate_unique_id": lambda it, a, k: Unknown("uuid"),
+        f"{HELPERS}:generate_unique_id": _unique_id,
         f"{HELPERS}:now_to_timestamp": lambda it, a, k: R.atom("now"),
         f"{HELPERS}:now": lambda it, a, k: R.atom("now"),
         f"{HELPERS}:timestamp_to_time": lambda it, a, k: Unknown("timestr"),
